@@ -738,7 +738,18 @@ fn round_blocking(rt: &tokio::runtime::Runtime, seed: u64, hb: &Heartbeat, tot: 
     }
     for (name, h) in [("blocking_tell", inside), ("blocking_ask", inside2)] {
         *o.entry("C17.inside_runtime").or_default() += 1;
-        match rt.block_on(h) {
+        let joined = rt.block_on(async { tokio::time::timeout(Duration::from_secs(10), h).await });
+        let joined = match joined {
+            Ok(j) => j,
+            Err(_) => {
+                if hb.max_late_since(bucket0) < STALL_US {
+                    v.push(("C17.deadline".into(), format!("[worker-blocked] {name}(Some(3 ms)) called from a runtime worker against a full mailbox did not return within 10 s")));
+                    v.push(("C10.late".into(), format!("[worker-blocked] {name}(Some(3 ms)) called from a runtime worker did not return within 10 s of its deadline")));
+                }
+                continue;
+            }
+        };
+        match joined {
             Ok((res, _)) => {
                 if res != Res::Timeout {
                     v.push(("C17.inside_runtime".into(), format!("{name}(Some(t)) from a runtime worker against a full mailbox returned {res:?}")));
@@ -1285,6 +1296,37 @@ pub fn cmd_mt(a: &Args) -> i32 {
     install_failpoints(fp);
     let hb = Arc::new(Heartbeat::start());
     let tot = Arc::new(Mutex::new(Tot::default()));
+    {
+        // last resort: every wait in the profiles is bounded, but a blocked runtime shutdown or thread join must not hang the check
+        let (tot, limit) = (tot.clone(), secs + 180);
+        std::thread::spawn(move || {
+            std::thread::sleep(Duration::from_secs(limit));
+            let t = tot.lock().unwrap_or_else(|e| e.into_inner());
+            let vj: Vec<String> = t
+                .viol
+                .iter()
+                .map(|(c, m, s, p)| JObj::new().s("prop", &c[..3]).s("clause", c).s("msg", m).s("profile", p).n("seed", *s).n("pert", 0).b("erased", false).build())
+                .collect();
+            let oj: Vec<String> = t.obl.iter().map(|(k, v)| format!("{}:{}", json_str(k), v)).collect();
+            println!(
+                "{}",
+                JObj::new()
+                    .s("engine", "mt")
+                    .s("features", &crate::features_label())
+                    .n("scenarios", t.rounds)
+                    .n("events", t.events)
+                    .raw("obl", &format!("{{{}}}", oj.join(",")))
+                    .raw("nontrivial", "{}")
+                    .raw("hashes", "[]")
+                    .raw("viol", &jarr(&vj))
+                    .raw("samples", "[]")
+                    .raw("inconclusive", &jarr_str(&[format!("the MT process did not finish within {limit} s (process-level watchdog)")]))
+                    .raw("extra", "{}")
+                    .build()
+            );
+            std::process::exit(if vj.is_empty() { 2 } else { 1 });
+        });
+    }
     #[cfg(feature = "f_testutils")]
     let dl0 = rsactor::dead_letter_count();
     let t0 = Instant::now();
